@@ -112,10 +112,25 @@ def text(case):
 
 def build(case):
     if case["form"] == "api":
-        return Allocation([(cell_rect(c, case["unit"]), dict(c["a"]), c["d"]) for c in case["cells"]])
-    if case["form"] == "tree":
-        return Allocation(tree(case))
-    return Allocation(text(case))
+        a = Allocation([(cell_rect(c, case["unit"]), dict(c["a"]), c["d"]) for c in case["cells"]])
+    elif case["form"] == "tree":
+        t = tree(case)
+        a = Allocation(t)
+        if t != tree(case):
+            from vfw.core import Violation
+            raise Violation("Allocation(description) altered the caller's description: now %r, was %r" % (t, tree(case)), "description-altered")
+    else:
+        a = Allocation(text(case))
+    # the object holds what the description says (cells in order, every listed module with its ratio - zero entries included -
+    # and the recorded depth): everything the checks conclude about refinement is relative to the DESCRIBED allocation
+    got = [(dict(x.alloc), x.depth) for x in a.allocations]
+    want = [(dict(c["a"]), c["d"]) for c in case["cells"]]
+    if got != want:
+        from vfw.core import Violation
+        k = next((i for i, (g, w) in enumerate(zip(got, want)) if g != w), min(len(got), len(want)))
+        raise Violation("Allocation built from the %s form holds %s for cell %d, the description says %s" % (
+            case["form"], got[k] if k < len(got) else None, k, want[k] if k < len(want) else None), "constructed-differs")
+    return a
 
 
 def snapshot(alloc):
